@@ -149,14 +149,29 @@ def eval_scenario(sc, res: Result | None = None):
     full[:, 0, :] = [0.31, 0.33, 0.37]
     full[:, 3, :] = [0.71, 0.13, 0.57]
     traj = concretise.make_trajectory(full, species, M)
-    sites = concretise.make_sites(site_frac, labels, M)
+    # the site structure may carry its own (slightly different, differently oriented) cell, e.g. from a CIF: the
+    # assignment is defined by the SIMULATION cell and the fractional site coordinates
+    if sc.get('skip', -1) == 0 or sc['layout'] == 1 and sc['f'] == 0.9:
+        Ms = (M * 1.03) @ geom.rotation((12.0, 31.0, 47.0)).T
+    else:
+        Ms = M
+    sites = concretise.make_sites(site_frac, labels, Ms)
     f = sc['f']
     try:
         tr = traj.transitions_between_sites(sites, 'Li', site_radius=spec, site_inner_fraction=f)
     except Exception as e:  # noqa: BLE001
         return [(f'raise-{type(e).__name__}', f'{type(e).__name__}: {e}')], ('raise', type(e).__name__), 0, 0
-    states = np.asarray(tr.states)
-    inner = np.asarray(tr.inner_states)
+    states = np.asarray(tr.states).copy()
+    inner = np.asarray(tr.inner_states).copy()
+    try:  # derived views must not write into the states
+        tr.states_prev()
+        tr.states_next()
+        tr.occupancy()
+        if not np.array_equal(np.asarray(tr.states), states) or not np.array_equal(np.asarray(tr.inner_states), inner):
+            viols.append(('states-modified-by-a-derived-view', ''))
+    except Exception:  # noqa: BLE001  (occupancy > 1 etc. are not this property's business)
+        if not np.array_equal(np.asarray(tr.states), states):
+            viols.append(('states-modified-by-a-derived-view', ''))
     # the caller's radius argument is reused for a second call: it must be unchanged and give the same answer
     import copy
 
